@@ -196,6 +196,37 @@ def eval_case(ctx: Ctx, c: dict):
             elif want is None and tr.startswith("ok"):
                 ctx.fail("C01/tokenizer.get_name/overlong-accepted", f"Tokenizer({text!r}).get_name(origin={origin!r}, relativize_to={rt!r}) -> {tr}", rep)
             ctx.count("text.tokenizer." + ("rel" if rel else "abs") + ("+rt" if rt is not None else ""))
+            # styled text: NameStyle(origin, relativize) is choose_relativity before printing; omit_final_dot only drops
+            # the last dot of an absolute non-root name
+            if want is not None and base is not None:
+                B = dns.name.Name(base)
+                st, sv = outcome(lambda: dns.name.Name(full).to_styled_text(dns.name.NameStyle(origin=B, relativize=rel)), lambda x: x)
+                wt = dns.name.Name(want).to_text() if wf(want) else None
+                if wt is not None and st != "ok " + wt:
+                    ctx.fail("C01/to_styled_text/relativity", f"Name({full!r}).to_styled_text(origin={base!r}, relativize={rel}) -> {st[:120]}, expected {wt[:120]!r}", rep)
+        for variant in ("omit", "str", "copy", "pickle", "canon"):
+            import copy as _copy
+            import pickle as _pickle
+            if variant == "omit":
+                tt, _ = outcome(lambda: n.to_text(omit_final_dot=True), lambda x: x)
+                expt = text[:-1] if (n.is_absolute() and len(labels) > 1) else text
+                if tt != "ok " + expt:
+                    ctx.fail("C01/to_text/omit_final_dot", f"Name({labels!r}).to_text(omit_final_dot=True) -> {tt[:120]}", rep)
+                elif n.is_absolute():
+                    rr, _ = outcome(lambda: dns.name.from_text(expt, dns.name.root), lambda x: enc_labels(x.labels))
+                    if rr != "ok " + enc_labels(labels):
+                        ctx.fail("C01/text-roundtrip/value-differs", f"from_text(to_text(omit_final_dot=True) of {labels!r}, root) -> {rr}", rep)
+            elif variant == "str":
+                if str(n) != text:
+                    ctx.fail("C01/to_text/str-differs", f"str(Name({labels!r})) = {str(n)!r} != to_text() {text!r}", rep)
+            elif variant in ("copy", "pickle"):
+                cr, _ = outcome((lambda: _copy.deepcopy(n)) if variant == "copy" else (lambda: _pickle.loads(_pickle.dumps(n))), lambda x: enc_labels(x.labels))
+                if cr != "ok " + enc_labels(labels):
+                    ctx.fail(f"C01/{variant}/value-differs", f"{variant} of Name({labels!r}) -> {cr}", rep)
+            else:
+                cr, _ = outcome(lambda: n.canonicalize(), lambda x: enc_labels(x.labels))
+                if cr != "ok " + enc_labels([l.lower() for l in labels]):
+                    ctx.fail("C01/canonicalize/value-differs", f"Name({labels!r}).canonicalize() -> {cr}", rep)
     elif k == "fromtext":
         text = bytes.fromhex(c["text"]).decode("ascii")
         origin = None if c["origin"] is None else [bytes.fromhex(x) for x in c["origin"]]
@@ -391,12 +422,22 @@ def eval_case(ctx: Ctx, c: dict):
         if op == "concat":
             r, v = outcome(lambda: A.concatenate(B), fmt)
             line = f"n.concat {enc_labels(a)} {enc_labels(b)}"
+            r2, _ = outcome(lambda: A + B, fmt)
+            if r2 != r:
+                ctx.fail("C01/op/add-differs-from-concatenate", f"{a!r} + {b!r} -> {r2} but concatenate -> {r}", rep)
         elif op == "relativize":
             r, v = outcome(lambda: A.relativize(B), fmt)
             line = f"n.relativize {enc_labels(a)} {enc_labels(b)}"
+            r2, _ = outcome(lambda: A - B, fmt)
+            r3, _ = outcome(lambda: A.choose_relativity(B, True), fmt)
+            if r2 != r or (len(b) > 0 and r3 != r):
+                ctx.fail("C01/op/sub-or-choose_relativity-differs-from-relativize", f"{a!r} - {b!r} -> {r2}, choose_relativity -> {r3}, relativize -> {r}", rep)
         elif op == "derelativize":
             r, v = outcome(lambda: A.derelativize(B), fmt)
             line = f"n.derelativize {enc_labels(a)} {enc_labels(b)}"
+            r3, _ = outcome(lambda: A.choose_relativity(B, False), fmt)
+            if len(b) > 0 and r3 != r:
+                ctx.fail("C01/op/choose_relativity-differs-from-derelativize", f"{a!r}.choose_relativity({b!r}, False) -> {r3}, derelativize -> {r}", rep)
         elif op == "parent":
             r, v = outcome(lambda: A.parent(), fmt)
             line = f"n.parent {enc_labels(a)}"
